@@ -183,10 +183,15 @@ impl Snapshot {
 	/// helper is not an option: dropping it would unregister the sequence
 	/// number of the real snapshot from the tracker.
 	fn collect_iter_state_from(core: &Arc<Core>) -> Result<IterState> {
+		// Lock order: active memtable -> level manifest -> immutable memtables, the
+		// order in which memtable rotation, flush and compaction take them. Taking
+		// the immutable memtables before the manifest (as this function used to)
+		// deadlocks against a compaction that holds the manifest write lock and
+		// waits for the immutable-memtables write lock.
 		let active = guardian::ArcRwLockReadGuardian::take(Arc::clone(&core.active_memtable))?;
+		let manifest = guardian::ArcRwLockReadGuardian::take(Arc::clone(&core.level_manifest))?;
 		let immutable =
 			guardian::ArcRwLockReadGuardian::take(Arc::clone(&core.immutable_memtables))?;
-		let manifest = guardian::ArcRwLockReadGuardian::take(Arc::clone(&core.level_manifest))?;
 
 		Ok(IterState {
 			active: active.clone(),
